@@ -59,6 +59,22 @@ def gen_tree(rng, depth):
     return ("bin", rng.choice("+-*/"), gen_tree(rng, depth - 1), gen_tree(rng, depth - 1))
 
 
+BOUNDARY_LEAVES = [("lit", v) for v in (0, 1, 2, 3, 255, 256, 32767, 32768, 32769, 40000, 65534, 65535)] + \
+    [("neg", ("lit", v)) for v in (1, 2, 3, 256, 32767, 32768)] + [("reg", 13), ("reg", 11), ("reg", 1), ("sym", "KN"), ("sym", "K1")]
+
+
+def boundary_pairs():
+    """every operator on every pair of boundary operands (values at and around the ends of -32768..65535, +-1, +-2):
+    the results sweep across both ends of the range"""
+    for op in "+-*/":
+        for a in BOUNDARY_LEAVES:
+            for b in BOUNDARY_LEAVES:
+                yield ("bin", op, a, b)
+    for a in BOUNDARY_LEAVES:
+        yield ("neg", a)
+        yield ("deref", a)
+
+
 def render_lit(rng, v):
     k = rng.random()
     if k < 0.5:
@@ -247,9 +263,18 @@ def check(seed, n, herad_path=None):
         for c in cmds:
             dbg.feed(shell, c)
         env = env_words(shell)
-        for k in range(n // 3):
+        pairs = list(boundary_pairs()) if stage == 1 else []
+        for k in range(n // 3 + len(pairs)):
             j = rng.random()
-            if j < 0.8:
+            if k >= n // 3:
+                # the exhaustive boundary family, sometimes embedded in a larger expression
+                t = pairs[k - n // 3]
+                if k % 4 == 3:
+                    t = ("bin", rng.choice("+*"), t, ("lit", rng.choice([0, 1, 65535])))
+                trees = [t]
+                text = render(rng, t)
+                dist["boundary"] = dist.get("boundary", 0) + 1
+            elif j < 0.8:
                 depth = rng.choice([0, 1, 2, 3, 4, 6])
                 trees = [gen_tree(rng, depth) for _ in range(rng.choice([1, 1, 1, 2, 3]))]
                 text = rng.choice(["", "", ":d ", ":x ", ":bods "]) + rng.choice([", ", ",", " , "]).join(render(rng, t) for t in trees)
